@@ -29,6 +29,7 @@ type c06Case struct {
 	cliTrusts  bool   // client trusts the server's root
 	stdCert    string // rsa | ec (TLS suites)
 	tlsVer     uint16
+	alpn       int // 0: no protocol lists; 1: overlapping lists in different orders; 2: disjoint lists (gmtls on both ends only)
 	name       string
 }
 
@@ -221,8 +222,15 @@ func runC06(c *Ctx) {
 		if cs.cliCert == "" {
 			cs.cliCert = "none"
 		}
+		// application-protocol lists as one more dimension across the whole matrix
+		cs.alpn = i % 3
+		if cs.alpn == 2 && (cs.cliKind == "std" || cs.srvMode == "stdserver") {
+			cs.alpn = 1 // crypto/tls aborts on disjoint lists (RFC 7301); gmtls, like the Go it was forked from, goes on without
+		}
 		cs.name = fmt.Sprintf("srv=%s/cli=%s/cs=%v/ss=%v/prefSrv=%v/auth=%s/ccert=%s%s/src=%s/tickets=%v/trust=%v/ver=%04x/%s", cs.srvMode, cs.cliKind, suiteNames(cs.cliSuites), suiteNames(cs.srvSuites), cs.preferSrv, authName(cs.auth), cs.cliCert, cs.stdCliCert, cs.certSrc, cs.tickets, cs.cliTrusts, cs.tlsVer, cs.stdCert)
 	}
+	runC06SNI(c)
+	defer rep.Require("sessions_with_a_negotiated_application_protocol", 10)
 	rep.Count("cases", int64(len(cases)))
 	var smu sync.Mutex
 	sampled := 0
@@ -305,6 +313,7 @@ func runC06Case(c *Ctx, pki *tlsPKI, cs c06Case, idx int, sample func(interface{
 			scfg.ClientCAs = pki.gmStdPool // the self-signed RSA / ECDSA certificates are their own trust anchors
 		}
 	}
+	scfg.NextProtos = c06Protos(cs.alpn, true)
 	// ---- client config
 	roots := pki.pool
 	if !cs.cliTrusts {
@@ -315,6 +324,7 @@ func runC06Case(c *Ctx, pki *tlsPKI, cs c06Case, idx int, sample func(interface{
 	if cs.tickets {
 		ccfg.ClientSessionCache = gmtls.NewLRUClientSessionCache(4)
 	}
+	ccfg.NextProtos = c06Protos(cs.alpn, false)
 	if cs.cliKind == "gm" {
 		ccfg.GMSupport = gmtls.NewGMSupport()
 	} else {
@@ -404,6 +414,12 @@ func runC06Case(c *Ctx, pki *tlsPKI, cs c06Case, idx int, sample func(interface{
 	cst, sst := out.cli.state, out.srv.state
 	if cst.Version != sst.Version || cst.CipherSuite != sst.CipherSuite || cst.DidResume != sst.DidResume {
 		rep.Violation("C06/ConnectionState/ends-disagree", fmt.Sprintf("client v=%04x s=%04x r=%v, server v=%04x s=%04x r=%v", cst.Version, cst.CipherSuite, cst.DidResume, sst.Version, sst.CipherSuite, sst.DidResume), w)
+	}
+	if why := c06ProtoAgreement(cs.alpn, cst.NegotiatedProtocol, sst.NegotiatedProtocol); why != "" {
+		rep.Violation("C06/ConnectionState/ends-disagree/negotiated-protocol", why, w)
+	}
+	if cst.NegotiatedProtocol != "" {
+		rep.Count("sessions_with_a_negotiated_application_protocol", 1)
 	}
 	if !sameStrings(out.cli.ekm, out.srv.ekm) {
 		rep.Violation("C06/ExportKeyingMaterial/ends-disagree", fmt.Sprintf("client %v server %v", out.cli.ekm, out.srv.ekm), w)
@@ -667,10 +683,11 @@ func runC06Std(c *Ctx, pki *tlsPKI, cs c06Case, scfg, ccfg *gmtls.Config, cls, e
 	var cPanic, sPanic *mon.PanicInfo
 	var ca, sa rw
 	var cVer, sVer, cSuite, sSuite uint16
+	var cProto, sProto string
 	stdVer := func(v uint16) uint16 { return v }
 	if cs.cliKind == "std" {
 		sc := gmtls.Server(sm, scfg)
-		stdc := &stdtls.Config{ServerName: tlsServerName, RootCAs: pki.stdRootPool, CipherSuites: cs.cliSuites, MinVersion: stdVer(cs.tlsVer), MaxVersion: stdVer(cs.tlsVer), Time: func() (t timeT) { return fixedNow }}
+		stdc := &stdtls.Config{NextProtos: c06Protos(cs.alpn, false), ServerName: tlsServerName, RootCAs: pki.stdRootPool, CipherSuites: cs.cliSuites, MinVersion: stdVer(cs.tlsVer), MaxVersion: stdVer(cs.tlsVer), Time: func() (t timeT) { return fixedNow }}
 		switch cs.stdCliCert {
 		case "rsa":
 			stdc.Certificates = []stdtls.Certificate{pki.stdRSA}
@@ -686,7 +703,7 @@ func runC06Std(c *Ctx, pki *tlsPKI, cs c06Case, scfg, ccfg *gmtls.Config, cls, e
 				cm.Close()
 			} else {
 				st := cc.ConnectionState()
-				cVer, cSuite = st.Version, st.CipherSuite
+				cVer, cSuite, cProto = st.Version, st.CipherSuite, st.NegotiatedProtocol
 			}
 		}()
 		go func() {
@@ -696,7 +713,7 @@ func runC06Std(c *Ctx, pki *tlsPKI, cs c06Case, scfg, ccfg *gmtls.Config, cls, e
 				sm.Close()
 			} else {
 				st := sc.ConnectionState()
-				sVer, sSuite = st.Version, st.CipherSuite
+				sVer, sSuite, sProto = st.Version, st.CipherSuite, st.NegotiatedProtocol
 			}
 		}()
 		ca, sa = cc, sc
@@ -705,7 +722,7 @@ func runC06Std(c *Ctx, pki *tlsPKI, cs c06Case, scfg, ccfg *gmtls.Config, cls, e
 		if cs.stdCert == "ec" {
 			cert = pki.stdEC
 		}
-		stds := &stdtls.Config{Certificates: []stdtls.Certificate{cert}, CipherSuites: cs.srvSuites, MinVersion: cs.tlsVer, MaxVersion: cs.tlsVer, Time: func() (t timeT) { return fixedNow }}
+		stds := &stdtls.Config{NextProtos: c06Protos(cs.alpn, true), Certificates: []stdtls.Certificate{cert}, CipherSuites: cs.srvSuites, MinVersion: cs.tlsVer, MaxVersion: cs.tlsVer, Time: func() (t timeT) { return fixedNow }}
 		if cs.stdCliCert != "" {
 			stds.ClientAuth = stdtls.RequireAnyClientCert
 		}
@@ -719,7 +736,7 @@ func runC06Std(c *Ctx, pki *tlsPKI, cs c06Case, scfg, ccfg *gmtls.Config, cls, e
 				cm.Close()
 			} else {
 				st := cc.ConnectionState()
-				cVer, cSuite = st.Version, st.CipherSuite
+				cVer, cSuite, cProto = st.Version, st.CipherSuite, st.NegotiatedProtocol
 			}
 		}()
 		go func() {
@@ -729,7 +746,7 @@ func runC06Std(c *Ctx, pki *tlsPKI, cs c06Case, scfg, ccfg *gmtls.Config, cls, e
 				sm.Close()
 			} else {
 				st := sc.ConnectionState()
-				sVer, sSuite = st.Version, st.CipherSuite
+				sVer, sSuite, sProto = st.Version, st.CipherSuite, st.NegotiatedProtocol
 			}
 		}()
 		ca, sa = cc, sc
@@ -774,6 +791,9 @@ func runC06Std(c *Ctx, pki *tlsPKI, cs c06Case, scfg, ccfg *gmtls.Config, cls, e
 			rep.Violation("C06/interop-with-crypto/tls/server-sees-no-client-certificate", cs.name, w)
 		}
 	}
+	if why := c06ProtoAgreement(cs.alpn, cProto, sProto); why != "" {
+		rep.Violation("C06/interop-with-crypto/tls/ends-disagree/negotiated-protocol", why, w)
+	}
 	if cVer != sVer || cSuite != sSuite || cVer != cs.tlsVer {
 		rep.Violation("C06/interop-with-crypto/tls/ends-disagree", fmt.Sprintf("client v=%04x s=%04x server v=%04x s=%04x want v=%04x", cVer, cSuite, sVer, sSuite, cs.tlsVer), w)
 	}
@@ -781,4 +801,35 @@ func runC06Std(c *Ctx, pki *tlsPKI, cs c06Case, scfg, ccfg *gmtls.Config, cls, e
 	c06Exchange(rep, ca, sa, r.U64(), r.Pick(1, 1000, 16385, 40000), r, w, "C06")
 	rep.Count("sessions_with_crypto_tls_peer", 1)
 	rep.Eval(cls)
+}
+
+// c06Protos: the application-protocol lists of variant a (server and client list the common protocols in opposite orders).
+func c06Protos(a int, server bool) []string {
+	switch a {
+	case 1:
+		if server {
+			return []string{"verif/2", "verif/1", "only-server"}
+		}
+		return []string{"only-client", "verif/1", "verif/2"}
+	case 2:
+		if server {
+			return []string{"only-server"}
+		}
+		return []string{"only-client"}
+	}
+	return nil
+}
+
+// c06ProtoAgreement: both ends must report the same application protocol; a reported protocol must be one both sides listed.
+func c06ProtoAgreement(a int, cp, sp string) string {
+	if cp != sp {
+		return fmt.Sprintf("client reports %q, server reports %q", cp, sp)
+	}
+	if cp == "" {
+		return ""
+	}
+	if a != 1 || (cp != "verif/1" && cp != "verif/2") {
+		return fmt.Sprintf("both report %q, which is not on both lists (variant %d)", cp, a)
+	}
+	return ""
 }
